@@ -227,7 +227,7 @@ def def_axioms(formulas, rounds=2):
             if i in done:
                 continue
             done.add(i)
-            decl, body, argkinds, retkind = names[app.decl().name()]
+            decl, body, argkinds, retkind = names[app.decl().name()][:4]
             args = [_ops.mk(a, k) for a, k in zip(app.children(), argkinds)]
             val = body(*args)
             vz = _ops.z3int(val) if retkind == 'int' else (_ops.z3real(val) if retkind == 'real' else _ops.z3bool(val))
